@@ -26,7 +26,9 @@ type c03Case struct {
 	HandlerNotif   *world.NotifSpec `json:"handler_notif,omitempty"`
 	SleepUpdNs     int64            `json:"sleep_upd_ns,omitempty"`
 	SleepEstNs     int64            `json:"sleep_est_ns,omitempty"`
-	End            string           `json:"end,omitempty"` // "", "fin"
+	End            string           `json:"end,omitempty"`         // "", "fin"
+	LocalHold      *int             `json:"local_hold,omitempty"`  // configured hold time (nil: 90)
+	RemoteHold     *uint16          `json:"remote_hold,omitempty"` // hold time in the remote's OPEN (nil: 90)
 }
 
 func c03Prop(t *testing.T, r *hx.Run) func(c c03Case) hx.Verdict {
@@ -79,6 +81,14 @@ func c03Prop(t *testing.T, r *hx.Run) func(c c03Case) hx.Verdict {
 			v.NT = fmt.Sprintf("%v/%v/%v/%d/%v/%v", c.Out, c.Msgs, c.Cuts, c.HandlerNotifOn, c.ShareHandshake, c.ShareOpen)
 		}
 		p := basePeer(c.Out)
+		rhold := uint16(90)
+		if c.LocalHold != nil {
+			p.Hold = *c.LocalHold
+		}
+		if c.RemoteHold != nil {
+			rhold = *c.RemoteHold
+		}
+		v.Class += fmt.Sprintf("/hold0=%v", p.Hold == 0 || rhold == 0)
 		p.Plugin.HandlerNotifOn = c.HandlerNotifOn
 		p.Plugin.HandlerNotif = c.HandlerNotif
 		p.Plugin.SleepNs = map[string]int64{"upd": c.SleepUpdNs, "est": c.SleepEstNs}
@@ -90,7 +100,7 @@ func c03Prop(t *testing.T, r *hx.Run) func(c c03Case) hx.Verdict {
 		}
 		o, serr := world.Single(t, "10.0.0.1", p, c.Out, nil, func(w *world.World, conn *memnet.Conn) {
 			var stream []byte
-			open := world.RemoteOpen(p, conn, 90, 0x0a000002).Frame()
+			open := world.RemoteOpen(p, conn, rhold, 0x0a000002).Frame()
 			if c.ShareHandshake && c.ShareOpen {
 				stream = append(stream, open...)
 			} else {
@@ -263,6 +273,18 @@ func genC03(rt *rapid.T) c03Case {
 	}
 	if rapid.IntRange(0, 3).Draw(rt, "end") == 0 {
 		c.End = "fin"
+	}
+	// negotiated hold time: 0 (no timers; KEEPALIVEs from the remote are still tolerated), small, default
+	switch rapid.IntRange(0, 5).Draw(rt, "holdkind") {
+	case 0:
+		h := 0
+		c.LocalHold = &h
+	case 1:
+		h := uint16(0)
+		c.RemoteHold = &h
+	case 2:
+		h, rh := pick(rt, "lhold", 3, 9, 30), pick[uint16](rt, "rhold", 3, 6, 180)
+		c.LocalHold, c.RemoteHold = &h, &rh
 	}
 	return c
 }
